@@ -155,6 +155,117 @@ Proof.
     destruct res; try (exfalso; apply F2; reflexivity); reflexivity.
 Qed.
 
+(* ================================================================ several connections: fresh nonces *)
+Lemma hs_short : forall ch lk t r ev,
+  spec_hs_with (entitled ch t r)
+    [result_code (fst (init_connection ch lk t r ev)); bound_of (snd (init_connection ch lk t r ev)); 1; 0]%Z = true.
+Proof.
+  intros ch lk t r ev.
+  destruct (entitled ch t r) as [k|] eqn:Ent.
+  - destruct r as [|a]; [discriminate Ent|].
+    assert (Hk : k = a_key a).
+    { unfold entitled in Ent. destruct (_ && _) in Ent; [inversion Ent; reflexivity | discriminate Ent]. }
+    subst k. clear Ent.
+    unfold init_connection.
+    destruct (negb (proof_ok ch a)); [reflexivity|].
+    destruct (negb (peer_row_ok a)); [reflexivity|].
+    destruct t as [expected|inv|inv ap signer].
+    + destruct (N.eqb expected (a_key a)); [|reflexivity].
+      destruct (N.eqb lk (a_key a)); destruct ev; cbv -[zn Z.eqb orb andb a_key]; rewrite ?Z.eqb_refl, ?orb_true_r; reflexivity.
+    + destruct ev; cbv -[zn Z.eqb orb andb a_key]; rewrite ?Z.eqb_refl, ?orb_true_r; reflexivity.
+    + destruct signer as [s|]; [|reflexivity].
+      destruct (N.eqb s (a_key a)); [|reflexivity].
+      destruct ev; cbv -[zn Z.eqb orb andb a_key]; rewrite ?Z.eqb_refl, ?orb_true_r; reflexivity.
+  - destruct (fail_holds ch lk t r ev Ent) as [F1 F2].
+    destruct (init_connection ch lk t r ev) as [res es]. cbn [fst snd] in *. subst es.
+    destruct res; try (exfalso; apply F2; reflexivity); reflexivity.
+Qed.
+
+Lemma nodup_n_NoDup : forall l, NoDup l -> nodup_n l = true.
+Proof.
+  induction 1 as [|x l Hx _ IH]; [reflexivity|]. cbn [nodup_n]. rewrite IH, andb_true_r.
+  destruct (existsb (N.eqb x) l) eqn:E; [|reflexivity].
+  apply existsb_exists in E. destruct E as [y [Hy Exy]]. apply N.eqb_eq in Exy. subst y. contradiction.
+Qed.
+
+(* the accepted answer signs THIS connection's nonce; with pairwise distinct nonces an answer
+   recorded on another connection is therefore never accepted *)
+Theorem replay_rejected : forall nonces all i j c,
+  NoDup nonces -> (i < length nonces)%nat -> sc_remote c = SReplay j -> j <> i ->
+  fst (conn_result nonces all i c) <> ROkTrue.
+Proof.
+  intros nonces all i j c ND Hi Hr Ne Acc. unfold conn_result in Acc.
+  destruct (nth_error nonces i) as [n|] eqn:Ni; [|discriminate Acc].
+  destruct (init_connection n (sc_local c) (sc_tt c) (sremote_of nonces all i c) (sc_ev c)) as [res es] eqn:IC.
+  cbn [fst] in Acc. subst res.
+  destruct (auth_holds _ _ _ _ _ _ IC) as [a [Ra [P _]]].
+  unfold sremote_of in Ra. rewrite Hr in Ra.
+  destruct (nth_error all j) as [cj|]; [|discriminate Ra].
+  destruct (nth_error nonces j) as [nj|] eqn:Nj; [|discriminate Ra].
+  destruct (sc_remote cj) as [|a'|]; try discriminate Ra. inversion Ra; subst a.
+  unfold proof_ok, over in P. cbn [a_sig_by a_key a_sig_over] in P.
+  destruct (a_sig_by a'); [|discriminate P]. apply andb_true_iff in P. destruct P as [_ P]. apply N.eqb_eq in P. subst nj.
+  apply Ne. symmetry. rewrite NoDup_nth_error in ND. apply ND; [exact Hi | congruence].
+Qed.
+
+(* C19_auth over a stream of nonces: accepted => the answer signs the nonce of THIS connection (and
+   everything auth_holds says); and, nonces being pairwise distinct, it is not a recorded answer *)
+Theorem auth_fresh : forall nonces all i c es,
+  NoDup nonces -> conn_result nonces all i c = (ROkTrue, es) ->
+  exists n a, nth_error nonces i = Some n /\ sremote_of nonces all i c = Ans a /\
+              proof_ok n a = true /\ a_sig_over a = n /\ peer_row_ok a = true /\
+              entitled n (sc_tt c) (sremote_of nonces all i c) = Some (a_key a) /\ In (EBind (a_key a)) es /\
+              (forall k, In (EBind k) es \/ In (MInviteAccepted k) es \/ In (MConnected k) es -> k = a_key a) /\
+              (forall j, sc_remote c = SReplay j -> j = i).
+Proof.
+  intros nonces all i c es ND H.
+  assert (Hi : (i < length nonces)%nat).
+  { unfold conn_result in H. destruct (nth_error nonces i) eqn:E; [|discriminate H]. apply nth_error_Some. congruence. }
+  pose proof (replay_rejected nonces all i) as RR.
+  unfold conn_result in H, RR. destruct (nth_error nonces i) as [n|] eqn:Ni; [|discriminate H].
+  destruct (auth_holds _ _ _ _ _ _ H) as [a [Ra [P [V [E [B U]]]]]].
+  exists n, a. repeat split; try assumption.
+  - unfold proof_ok in P. destruct (a_sig_by a); [|discriminate P]. apply andb_true_iff in P. destruct P as [_ P]. apply N.eqb_eq. exact P.
+  - intros j Hj. destruct (Nat.eq_dec j i) as [|Ne]; [assumption|]. exfalso.
+    apply (RR j c ND Hi Hj Ne). rewrite H. reflexivity.
+Qed.
+
+Lemma conn_ok_run : forall nonces all i c, NoDup nonces -> (i < length nonces)%nat ->
+  conn_ok nonces all i c (result_code (fst (conn_result nonces all i c))) (bound_of (snd (conn_result nonces all i c))) = true.
+Proof.
+  intros nonces all i c ND Hi. unfold conn_ok.
+  pose proof (replay_rejected nonces all i) as RR.
+  unfold conn_result in *.
+  destruct (nth_error nonces i) as [n|] eqn:Ni; [|apply nth_error_None in Ni; lia].
+  rewrite hs_short. cbn [andb].
+  destruct (sc_remote c) as [|a|j] eqn:R; try reflexivity.
+  destruct (Nat.eqb j i) eqn:E; [reflexivity|]. apply Nat.eqb_neq in E. cbn [orb].
+  specialize (RR j c ND Hi R E).
+  destruct (fst (init_connection n (sc_local c) (sc_tt c) (sremote_of nonces all i c) (sc_ev c))); try reflexivity.
+  exfalso. apply RR. reflexivity.
+Qed.
+
+Lemma spec_conns_run : forall nonces all cs i, NoDup nonces -> (i + length cs <= length nonces)%nat ->
+  spec_conns nonces all i cs (run_conns nonces all i cs) = true.
+Proof.
+  intros nonces all. induction cs as [|c cs IH]; intros i ND Hl; [reflexivity|].
+  cbn [length] in Hl. cbn [run_conns spec_conns]. rewrite conn_ok_run by (try assumption; lia). cbn [andb].
+  apply IH; [exact ND | lia].
+Qed.
+
+Theorem session_spec : forall nonces conns, length nonces = length conns -> NoDup nonces ->
+  spec_session conns (map zn nonces ++ run_conns nonces conns 0 conns) = true.
+Proof.
+  intros nonces conns L ND. unfold spec_session.
+  assert (Lm : length (map zn nonces) = length conns) by (rewrite map_length; exact L).
+  rewrite <- Lm. rewrite firstn_app, Nat.sub_diag, firstn_all. cbn [firstn]. rewrite app_nil_r.
+  rewrite skipn_app, Nat.sub_diag, skipn_all. cbn [skipn app].
+  assert (Id : map Z.to_N (map zn nonces) = nonces).
+  { rewrite map_map. rewrite <- (map_id nonces) at 2. apply map_ext. intro x. unfold zn. apply N2Z.id. }
+  rewrite Id. rewrite map_length, Nat.eqb_refl, (nodup_n_NoDup _ ND). cbn [andb].
+  apply spec_conns_run; [exact ND | lia].
+Qed.
+
 (* ================================================================ invitations *)
 (* number of entries that register invitation i *)
 Definition cntr (i : N) (l : list (token * ttype)) : nat := length (filter (registered i) l).
@@ -575,6 +686,7 @@ Definition case_ok (c : c19case) : Prop :=
   match c with
   | CTokens secs probes => secs_fun secs /\ forall p, In p probes -> (fst p < length secs)%nat /\ (snd p < length secs)%nat
   | CInvites _ _ _ ops => ops_ok 1 (n_creates ops) ops = true
+  | CSession nonces conns => length nonces = length conns /\ NoDup nonces
   | _ => True
   end.
 
@@ -593,11 +705,12 @@ Qed.
 
 Theorem run_spec_outside_known : forall c, case_ok c -> known_C19 c = [] -> spec_C19 c (run_C19 c) = true.
 Proof.
-  intros c Ok K. destruct c as [ch lk t r ev | app me mk ops | secs probes]; cbn [spec_C19 run_C19].
+  intros c Ok K. destruct c as [ch lk t r ev | app me mk ops | secs probes | nonces conns]; cbn [spec_C19 run_C19].
   - apply handshake_spec.
   - apply invite_holds. exact Ok.
   - destruct Ok as [F D]. destruct (probes_defined secs probes D) as [ts Hts]. rewrite Hts.
     apply spec_tokens_run; [exact F | apply known_tokens_no_clash; exact K | exact Hts].
+  - destruct Ok as [L ND]. apply session_spec; assumption.
 Qed.
 
 Lemma tokens_refuted :
